@@ -193,6 +193,9 @@ def run_case(res, case, sigs, attempt=0):
                 class Server(tcpnet.TapServerMixin, applicationentity.AE):
                     def on_receive_find(self, context, ds):
                         seen_queries.append(enc(ds))
+                        if raise_after == 0 and i % 2:
+                            # a handler written as a plain method: it fails before it returns anything
+                            raise exceptions.EventHandlingError('the database is away')
                         results = ((d, status_in_form(st, form)) for d, st in handler_results(matches, reuse))
                         return results if raise_after is None else failing_results(results, raise_after)
                 server = Server('FINDSCP', 0, supported_ts=[ts], max_pdu_length=server_max)
@@ -252,10 +255,12 @@ def run_case(res, case, sigs, attempt=0):
                     peer.accept(max_len=server_max)
                     ctx, cmd, data, lengths, problems = peer.recv_dimse()
                     seen_queries.append(data)
-                    for raw, st in want:
+                    for k, (raw, st) in enumerate(want):
+                        # "data set present" is any Command Data Set Type but 0101H
                         peer.send_dimse(ctx, {R.TAG_AFFECTED_SOP_CLASS: sop, R.TAG_COMMAND_FIELD: 0x8020,
                                               R.TAG_MESSAGE_ID_RSP: cmd[R.TAG_MESSAGE_ID],
-                                              R.TAG_STATUS: st}, raw)
+                                              R.TAG_STATUS: st}, raw,
+                                        data_set_type=[0x0001, 0x0000, 0x0102, 0x0001, 0xFFFF][(i + k) % 5])
                     peer.send_dimse(ctx, {R.TAG_AFFECTED_SOP_CLASS: sop, R.TAG_COMMAND_FIELD: 0x8020,
                                           R.TAG_MESSAGE_ID_RSP: cmd[R.TAG_MESSAGE_ID],
                                           R.TAG_STATUS: final_kind})
